@@ -7,9 +7,19 @@
     Gen/TieSym.lean     C17: generated symmetry classes = `Sym.valid/combine/sign/parity`; the group laws
     Gen/TieKoszul.lean  C03: generated `calc_phase_permutation` = `koszul`; the inversion-parity theorem
     Gen/TieUtil.lean    C13 & helpers: `argsort`, `permuted`, `without`
+    Gen/TieDict.lean    (R1) C01/C06/C19: `dicts_dont_conflict` = `dictsDontConflict` (= `cmAgree`), `replace_with_seq`,
+                        `AbelianArray.is_valid_sector` = `isValidSector`, the coordination counting of
+                        `ham_*_from_edges` = `coordTable`
+    Gen/TieFuse.lean    (R1) C05: `calc_fuse_group_info` = the fuse plan `calcFuseGroupInfo`
+    Gen/TieRand.lean    (R1) C16: `get_u1_charges` = `u1Charges`
+    Gen/TieFermi.lean   (R1) C04: `oddpos_dag` = `oddposDag`
 
   None of these is imported by SymmModel.lean (the main build must not depend on symmray's source text).
 -/
 import SymmModel.Gen.TieSym
 import SymmModel.Gen.TieKoszul
 import SymmModel.Gen.TieUtil
+import SymmModel.Gen.TieDict
+import SymmModel.Gen.TieFuse
+import SymmModel.Gen.TieRand
+import SymmModel.Gen.TieFermi
